@@ -10,6 +10,8 @@ import (
 	"math"
 
 	"github.com/reactivego/ivg"
+	"github.com/reactivego/ivg/decode"
+	"github.com/reactivego/ivg/encode"
 	"github.com/reactivego/ivg/raster/vec"
 	"github.com/reactivego/ivg/render"
 	"verif/mc"
@@ -110,7 +112,7 @@ var c16Palette = func() [64]color.RGBA {
 	return p
 }()
 
-const c16NFills = 5
+const c16NFills = 6
 
 func c16Fill(d ivg.Destination, fill int, indirect bool, s float32) {
 	inv := 1 / s
@@ -136,6 +138,18 @@ func c16Fill(d ivg.Destination, fill int, indirect bool, s float32) {
 		d.SetCSel(3)
 		if !indirect {
 			d.SetCReg(0, false, ivg.RGBAColor(c16FlatOpaque))
+		}
+	case 5:
+		// a palette index and a register reference given with high bits set (they address entry
+		// i & 63), after the register of the same number as the palette entry was overwritten
+		d.SetCSel(7)
+		d.SetCReg(0, false, ivg.RGBAColor(c16FlatTrans))
+		d.SetCSel(0)
+		if indirect {
+			d.SetCReg(1, false, ivg.PaletteIndexColor(0xc0|7)) // CREG[63] = palette[7]
+			d.SetCReg(0, false, ivg.CRegColor(0x40|63))        // CREG[0] = CREG[63]
+		} else {
+			d.SetCReg(0, false, ivg.RGBAColor(c16Palette[7]))
 		}
 	case 2, 3:
 		d.SetCSel(10)
@@ -262,8 +276,8 @@ func init() {
 	mc.Register(&mc.Check{
 		ID:    "C16",
 		Level: "exploration",
-		Rule: "engine P over (graphic x destination x rectangle x transformation): every one-path program over 10 shapes (L, l, H/V, Q+T, q+t, C+S, c+s, A, a, sub-paths via Y and y) x 5 fills (opaque via palette index, translucent via a rounding-sensitive blend, linear-pad gradient, radial-reflect gradient, initial content of a colour register) x sizes {1,7,64,512,513,600,40x100,100x40,511x3} (thorough + {2x3,3x514,1024x16}) x {RGBA, Alpha} x {Src, Over}, and every ordered pair of one-path programs (1600) at sizes 64 and 7, rendered with raster/vec. " +
-			"Relations, pixel buffers byte for byte: (a) rectangle at offset (7,9) inside a larger image with sentinel margin == image of its own, margin untouched; (b) viewBox, coordinates and radii x 2^k, gradient matrix linear part x 2^-k, k in {-3,-1,+2,+6} == original; (c) colours via palette index / register reference / blend == direct colours; (d) [P1,P2] with operator Src == P1 with Src then P2 with Over by a fresh Renderer; (r) relation (c) on a Renderer that rendered another graphic with the same palette before. " +
+		Rule: "engine P over (graphic x destination x rectangle x transformation): every one-path program over 10 shapes (L, l, H/V, Q+T, q+t, C+S, c+s, A, a, sub-paths via Y and y) x 6 fills (opaque via palette index, translucent via a rounding-sensitive blend, linear-pad gradient, radial-reflect gradient, initial content of a colour register, palette index and register reference with high bits set after the like-numbered register was overwritten) x sizes {1,7,64,512,513,600,40x100,100x40,511x3} (thorough + {2x3,3x514,1024x16}) x {RGBA, Alpha} x {Src, Over}, and every ordered pair of one-path programs (3600) at sizes 64 and 7, rendered with raster/vec. " +
+			"Relations, pixel buffers byte for byte: (a) rectangle at offset (7,9) inside a larger image with sentinel margin == image of its own, margin untouched; (b) viewBox, coordinates and radii x 2^k, gradient matrix linear part x 2^-k, k in {-3,-1,+2,+6} == original; (c) colours via palette index / register reference / blend == direct colours; (d) [P1,P2] with operator Src == P1 with Src then P2 with Over by a fresh Renderer; (r) relation (c) on a Renderer that rendered another graphic with the same palette before; (e) relation (c) between the two graphics in byte form (Encoder -> Decode -> Renderer). " +
 			"distinct = hash of the rendered pixels; non-trivial = render that produced at least one non-zero and one zero pixel",
 		Assumptions: []string{"golang.org/x/image/vector is a trusted dependency", "every float operation of the renderer commutes exactly with power-of-two scaling in the absence of overflow/underflow (the exponent set avoids both)"},
 		Units:       func(tier string) int { return n1 + n1 },
@@ -281,6 +295,9 @@ func init() {
 							c16Check(w, &c16Case{Prog: p, W: sz[0], H: sz[1], Alpha: alpha, Op: op, Rel: "a"})
 							c16Check(w, &c16Case{Prog: p, W: sz[0], H: sz[1], Alpha: alpha, Op: op, Rel: "c"})
 							c16Check(w, &c16Case{Prog: p, W: sz[0], H: sz[1], Alpha: alpha, Op: op, Rel: "r"})
+							if sz[0] <= 100 {
+								c16Check(w, &c16Case{Prog: p, W: sz[0], H: sz[1], Alpha: alpha, Op: op, Rel: "e"})
+							}
 							for _, k := range []int{-3, -1, 2, 6} {
 								_ = big
 								c16Check(w, &c16Case{Prog: p, W: sz[0], H: sz[1], Alpha: alpha, Op: op, Rel: "b", K: k})
@@ -306,6 +323,9 @@ func init() {
 					c16Check(w, &c16Case{Prog: p, W: sz[0], H: sz[1], Op: 0, Rel: "b", K: 2})
 					c16Check(w, &c16Case{Prog: p, W: sz[0], H: sz[1], Alpha: true, Op: 1, Rel: "d"})
 					c16Check(w, &c16Case{Prog: p, W: sz[0], H: sz[1], Op: 0, Rel: "c"})
+					if sz[0] == 7 {
+						c16Check(w, &c16Case{Prog: p, W: sz[0], H: sz[1], Op: 0, Rel: "e"})
+					}
 				}
 			}
 		},
@@ -403,6 +423,31 @@ func c16Check(w *mc.W, cs *c16Case) {
 		c16Render(other, rect0, op, func(d ivg.Destination) { p.emit(d, 0, true, 0, n, true) })
 		if i := firstDiffPix(*basePix, *otherPix); i >= 0 {
 			fail("indirect-colours:pixels-differ", fmt.Sprintf("colours through palette/register/blend differ from direct colours at byte %d (%d vs %d)", i, (*otherPix)[i], (*basePix)[i]))
+			return
+		}
+	case "e":
+		// (c) for the graphic in its byte form: the indirectly coloured graphic and the directly
+		// coloured one, both written by the Encoder and decoded into a Renderer
+		var imgs [2]*[]uint8
+		for v := 0; v < 2; v++ {
+			var e encode.Encoder
+			p.emit(&e, 0, v == 1, 0, n, true)
+			b, err := e.Bytes()
+			if err != nil {
+				fail("encoded:error", fmt.Sprintf("Encoder rejects the graphic (indirect=%v): %v", v == 1, err))
+				return
+			}
+			im, pix := c16NewImg(cs.Alpha, rect0)
+			var derr error
+			c16Render(im, rect0, op, func(d ivg.Destination) { derr = decode.Decode(d, b) })
+			if derr != nil {
+				fail("encoded:error", fmt.Sprintf("Decode of the encoded graphic (indirect=%v) fails: %v", v == 1, derr))
+				return
+			}
+			imgs[v] = pix
+		}
+		if i := firstDiffPix(*imgs[0], *imgs[1]); i >= 0 {
+			fail("indirect-colours-encoded:pixels-differ", fmt.Sprintf("encoded graphic with colours through palette/register/blend differs from the encoded graphic with direct colours at byte %d (%d vs %d)", i, (*imgs[1])[i], (*imgs[0])[i]))
 			return
 		}
 	case "r":
